@@ -6,7 +6,8 @@ d=/verif/seeded/$1; prop=$2; tier=${3:-quick}
 if [ -n "$(git -C /repo status --porcelain)" ]; then echo "/repo is not clean"; exit 2; fi
 git -C /repo apply "$d/patch.diff" || exit 2
 # undo the change and rebuild, so that no binary with the seeded change compiled in is left behind
-trap 'git -C /repo checkout -- . ; (cd /verif && cargo build --release --offline >/dev/null 2>&1)' EXIT
+# (NO_REBUILD=1: the caller rebuilds once at the end of a series)
+trap 'git -C /repo checkout -- . ; [ -n "${NO_REBUILD:-}" ] || (cd /verif && cargo build --release --offline >/dev/null 2>&1)' EXIT
 cd /verif && ./check "$prop" "$tier" > /verif/target/seeded-$1-$prop.log 2>&1
 rc=$?
 grep -E "^(VIOLATION|violation|OK|property=|harness)" /verif/target/seeded-$1-$prop.log | cut -c1-400 | head -12
